@@ -856,6 +856,95 @@ def mutate_tokens(rng, text):
     return "".join(tk)
 
 
+MPS_WORDS = ["ROWS", "COLUMNS", "RHS", "RANGES", "BOUNDS", "ENDATA", "NAME", "OBJSENSE", "OBJNAME", "REFROW", "'MARKER'", "'INTORG'", "'INTEND'",
+             "'SOSORG'", "'SOSEND'", "S1", "S2", "UP", "LO", "FX", "FR", "MI", "PL", "BV", "UI", "LI", "N", "L", "G", "E", "MAX", "MIN", "max", "Minimize", "MAXIMUM"]
+MPS_ODD = ["$x", "$", "*", "*x", "RHS", "BOUND", "RANGE", "1", "1x", "-", ".", "+", "inf", "Infinity", "+inf", "-INFx", "infinity$", "1e", "2/3", "-.5e1", "''MARKER'", "x'MARKER'",
+           "'MARKER'x", "'marker'", "5$", "obj", "\x0b", "a\x0bb"]
+
+
+def mutate_tokens_mps(rng, text):
+    """token- and line-level mutation of an MPS text (str) aimed at the reader's state machine: section keywords, marker lines, SOS blocks,
+    REFROW, set names, '$' comments, number-like names, indentation"""
+    k = rng.choice(["swap", "drop", "dup", "literal", "keyword", "keyword", "name", "name", "odd", "odd", "dollar", "move", "join", "sos", "refrow",
+                    "linedup", "linedrop", "lineswap", "unindent", "indent", "blankset", "objname", "two"])
+    if k == "two":
+        return mutate_tokens_mps(rng, mutate_tokens_mps(rng, text))
+    lines = text.split("\n")
+    if k in ("linedup", "linedrop", "lineswap", "unindent", "indent", "sos", "refrow", "blankset", "objname"):
+        idx = [i for i, l in enumerate(lines) if l.strip()]
+        if not idx:
+            return text
+        i = rng.choice(idx)
+        if k == "linedup":
+            lines.insert(rng.choice(idx), lines[i])
+        elif k == "linedrop":
+            del lines[i]
+        elif k == "lineswap":
+            j = rng.choice(idx)
+            lines[i], lines[j] = lines[j], lines[i]
+        elif k == "unindent":
+            lines[i] = lines[i].lstrip()
+        elif k == "indent":
+            lines[i] = rng.choice([" ", "\t", "  "]) + lines[i]
+        elif k == "blankset":
+            w = lines[i].split()
+            if lines[i][:1].isspace() and len(w) >= 3:
+                j = rng.choice([0, 1])
+                lines[i] = " " + " ".join(w[:j] + w[j + 1:])
+        elif k == "objname":
+            rows = [l.split()[1] for l in lines if l[:1] == " " and len(l.split()) == 2 and l.split()[0] in "NLGE"]
+            at = next((j for j, l in enumerate(lines) if l.startswith("ROWS")), 0)
+            lines[at:at] = ["OBJNAME", " " + (rng.choice(rows) if rows and rng.random() < 0.8 else "nosuchrow")]
+        elif k == "refrow":
+            rows = [l.split()[1] for l in lines if l[:1] == " " and len(l.split()) == 2 and l.split()[0] in "NLGE"]
+            at = next((j for j, l in enumerate(lines) if l.startswith("ROWS")), 0)
+            if rng.random() < 0.2:
+                at = len(lines) - 2
+            lines[at:at] = ["REFROW", " " + (rng.choice(rows) if rows and rng.random() < 0.8 else "nosuchrow")]
+            k = "sos" if rng.random() < 0.7 else k
+        if k == "sos":
+            c0 = next((j for j, l in enumerate(lines) if l.startswith("COLUMNS")), None)
+            c1 = next((j for j, l in enumerate(lines) if l.startswith(("RHS", "RANGES", "BOUNDS", "ENDATA")) and c0 is not None and j > c0), None)
+            if c0 is not None and c1 is not None and c1 > c0 + 1:
+                a = rng.randint(c0 + 1, c1 - 1)
+                b = rng.randint(a, c1 - 1)
+                ty = rng.choice(["S1", "S2", "S1", "", "S3"])
+                lines[b + 1:b + 1] = [" SOS2 'MARKER' 'SOSEND'"] if rng.random() < 0.9 else []
+                lines[a:a] = [(" %s SOS1 'MARKER' 'SOSORG'" % ty) if ty else " SOS1 'MARKER' 'SOSORG'"]
+                if rng.random() < 0.3:      # a second set over the same region: "member of SOS set"
+                    lines[b + 3:b + 3] = [" S1 SOS3 'MARKER' 'SOSORG'", lines[a + 1] if a + 1 < len(lines) else " x r 1", " SOS4 'MARKER' 'SOSEND'"]
+        return "\n".join(lines)
+    tk = _tokens(text)
+    idx = [i for i, t in enumerate(tk) if not t.isspace()]
+    if not idx:
+        return text
+    i = rng.choice(idx)
+    if k == "swap":
+        j = rng.choice(idx)
+        tk[i], tk[j] = tk[j], tk[i]
+    elif k == "drop":
+        tk[i] = ""
+    elif k == "dup":
+        tk[i] = tk[i] + " " + tk[i]
+    elif k == "literal":
+        tk[i] = rng.choice(PATHOLOGICAL)
+    elif k == "keyword":
+        tk[i] = rng.choice(MPS_WORDS)
+    elif k == "name":
+        tk[i] = tk[rng.choice(idx)]
+    elif k == "odd":
+        tk[i] = rng.choice(MPS_ODD)
+    elif k == "dollar":
+        tk[i] = rng.choice(["$ ", "$", " $c "]) + tk[i]
+    elif k == "move":
+        t = tk[i]
+        tk[i] = ""
+        tk.insert(rng.randrange(len(tk) + 1), " " + t + " ")
+    elif k == "join":
+        tk[i] = tk[i] + (tk[i + 2] if i + 2 < len(tk) else "x")
+    return "".join(tk)
+
+
 def mutate_bytes(rng, data):
     """byte-level mutation of file content (bytes)"""
     b = bytearray(data)
